@@ -119,3 +119,15 @@ Proof.
   apply (dseg_frame (dl_heap d)); [|exact Hs]. intros x Hx. apply (dl_add_frame d l node dir x H (Hd x Hx)).
   intros X. apply Hn. rewrite <- X. exact Hx.
 Qed.
+
+(* the walks read the list back for EVERY fuel above its length (round 6: the 1000 of dl_forward / dl_backward is only the fuel
+   the executable model happens to use) *)
+Theorem dl_walks_any_fuel d l fuel : drep d l -> (length l < fuel)%nat ->
+  walk fuel (dl_heap d) (dl_first d) true = l /\ walk fuel (dl_heap d) (dl_last d) false = rev l.
+Proof.
+  intros H Hlen. pose proof H as (N & Z0 & Hf & Hl & Hs). split.
+  - rewrite Hf. apply (walk_forward _ l 0 fuel Hs Z0 Hlen).
+  - apply drep_mirror in H. destruct H as (_ & Z0' & Hf' & _ & Hs'). cbn [mirror dl_first dl_heap] in Hf', Hs'.
+    rewrite Hf'. change false with (negb true). rewrite <- walk_mh.
+    apply (walk_forward _ (rev l) 0 fuel Hs' Z0'). rewrite rev_length. exact Hlen.
+Qed.
